@@ -348,7 +348,10 @@ Qed.
 Lemma total_ticks_nonneg : forall es, 0 <= total_ticks es.
 Proof. induction es as [|e es IH]; cbn; [lia|]. destruct e; try exact IH. lia. Qed.
 
-Lemma retry_timing : forall fl p u es s, Inv fl s -> ct s = CSleeping u -> now s <= u ->
+Lemma first_attempt_nil_app : forall o, first_attempt ([] ++ o) = first_attempt o.
+Proof. reflexivity. Qed.
+
+Lemma retry_timing : forall fl p u es s, Inv fl s -> ct s = CSleeping u -> now s < u ->
   guard_ok fl s -> no_user es = true ->
   if u <=? now s + total_ticks es
   then first_attempt (outputs fl p s es) = Some u
@@ -356,14 +359,85 @@ Lemma retry_timing : forall fl p u es s, Inv fl s -> ct s = CSleeping u -> now s
        /\ now (final fl p s es) = now s + total_ticks es.
 Proof.
   intros fl p u. induction es as [|e es IH]; intros s H Hc Hn Hg Hu.
-  - cbn [total_ticks]. replace (u <=? now s + 0) with (u <=? now s) by (f_equal; lia).
-    destruct (u <=? now s) eqn:E.
-    + (* the sleep is over at this very instant only if a Tick reaches it: with no event left
-         the deadline can only equal now when ... *)
-      apply Z.leb_le in E. assert (u = now s) by lia. subst u.
-      (* cannot happen without an event: state with CSleeping (now s) is not produced by ticks
-         stopping early; the statement then asks for an attempt - exclude by strictness below *)
-      exfalso. revert H. admit_never.
-    + repeat split; [exact Hc|cbn; lia].
-  - admit_never.
+  - cbn [total_ticks]. replace (u <=? now s + 0) with false by (symmetry; apply Z.leb_gt; lia).
+    repeat split; [exact Hc|cbn; lia].
+  - cbn [no_user forallb] in Hu. apply andb_true_iff in Hu. destruct Hu as [He Hu]. fold (no_user es) in Hu.
+    apply negb_true_iff in He.
+    assert (Hsame : step fl p s e = (s, []) ->
+      if u <=? now s + total_ticks es
+      then first_attempt (outputs fl p s (e :: es)) = Some u
+      else outputs fl p s (e :: es) = [] /\ ct (final fl p s (e :: es)) = CSleeping u
+           /\ now (final fl p s (e :: es)) = now s + total_ticks es).
+    { intro E. rewrite outputs_cons, final_cons, E. cbn [fst snd app]. apply IH; assumption. }
+    destruct e; try (apply Hsame; unfold step;
+      apply (g_sleeping_ignores Z.add Z.max Z.leb wd_check fl p s _ u H Hc He); intros dt0; discriminate);
+    try discriminate.
+    (* Tick dt *)
+    cbn [total_ticks]. destruct (Z_le_gt_dec dt 0) as [Hd|Hd].
+    + rewrite Z.max_l by lia. replace (now s + (0 + total_ticks es)) with (now s + total_ticks es) by lia.
+      apply Hsame. apply tick_nonpos. exact Hd.
+    + rewrite Z.max_r by lia. pose proof (total_ticks_nonneg es) as Hnn.
+      destruct (Z_le_gt_dec u (now s + dt)) as [Hr|Hr].
+      * replace (u <=? now s + (dt + total_ticks es)) with true by (symmetry; apply Z.leb_le; lia).
+        rewrite outputs_cons, (tick_sleeping_reach fl p s u dt Hc) by (try assumption; lia). reflexivity.
+      * pose proof (tick_sleeping_short fl p s u dt Hc ltac:(lia) ltac:(lia)) as E.
+        rewrite outputs_cons, final_cons, E. cbn [fst snd app].
+        assert (Hi : Inv fl (set_now s (now s + dt))).
+        { pose proof (step_inv fl p s (Tick dt) H) as Hi. rewrite E in Hi. exact Hi. }
+        specialize (IH (set_now s (now s + dt)) Hi Hc ltac:(cbn; lia) Hg Hu). cbn [now set_now] in IH.
+        replace (now s + (dt + total_ticks es)) with (now s + dt + total_ticks es) by lia.
+        exact IH.
+Qed.
+
+(* --- the watchdog inside the automata: the drop decision is Watchdog.wd_check, and a drop
+   re-dials at the same instant *)
+Lemma stcp_tick : forall p s dt, Inv SyncTcp s -> conn s = true -> 0 < dt ->
+  let t := now s + dt in
+  match wd_check (p_rt p) (check s) (disc s) t with
+  | WdDrop => conn (fst (step SyncTcp p s (Tick dt))) = false
+              /\ ct (fst (step SyncTcp p s (Tick dt))) = CDialing
+              /\ snd (step SyncTcp p s (Tick dt)) = [Close; LostCb true; Attempt t]
+  | WdProbe => conn (fst (step SyncTcp p s (Tick dt))) = true
+              /\ snd (step SyncTcp p s (Tick dt)) = [Write]
+  | WdIdle => conn (fst (step SyncTcp p s (Tick dt))) = true
+              /\ snd (step SyncTcp p s (Tick dt)) = []
+  end.
+Proof.
+  intros p s dt H Hc Hdt. destruct H as (H1 & H2 & _). destruct (H1 Hc) as [Htp Hct].
+  assert (Htm : timer s = None).
+  { destruct (timer s) eqn:E; [|reflexivity]. destruct (H2 _ eq_refl); discriminate. }
+  cbv zeta. unfold step, gstep, tick. rewrite Hct, Htm, Hc.
+  replace (dt <=? 0) with false by (symmetry; apply Z.leb_gt; lia).
+  unfold reader_iter. cbn [now check disc set_now negb].
+  destruct (wd_check (p_rt p) (check s) (disc s) (now s + dt)).
+  - destruct s; cbn in *; subst; repeat split.
+  - unfold send. cbn [tp conn set_check set_now]. rewrite Htp, Hc. destruct s; cbn in *; subst; split; reflexivity.
+  - destruct s; cbn in *; subst; split; reflexivity.
+Qed.
+
+Lemma atcp_timer : forall p s w dt, Inv AsyncTcp s -> timer s = Some w -> 0 < dt -> now s <= w ->
+  w <= now s + dt ->
+  match wd_check (p_rt p) (check s) (disc s) w with
+  | WdDrop => conn (fst (step AsyncTcp p s (Tick dt))) = false
+              /\ ct (fst (step AsyncTcp p s (Tick dt))) = CDialing
+              /\ snd (step AsyncTcp p s (Tick dt)) = [Close; LostCb false; Attempt w]
+  | WdProbe => conn (fst (step AsyncTcp p s (Tick dt))) = true
+              /\ snd (step AsyncTcp p s (Tick dt)) = [Write]
+              /\ timer (fst (step AsyncTcp p s (Tick dt))) = Some (w + p_rt p + p_slack p)
+  | WdIdle => conn (fst (step AsyncTcp p s (Tick dt))) = true
+              /\ snd (step AsyncTcp p s (Tick dt)) = []
+              /\ timer (fst (step AsyncTcp p s (Tick dt))) = Some (w + p_rt p + p_slack p)
+  end.
+Proof.
+  intros p s w dt H Htm Hdt Hn Hw. destruct H as (H1 & H2 & _). destruct (H2 _ Htm) as [Hc _].
+  destruct (H1 Hc) as [Htp Hct].
+  unfold step, gstep, tick. rewrite Hct, Htm.
+  replace (dt <=? 0) with false by (symmetry; apply Z.leb_gt; lia).
+  replace (w <=? now s + dt) with true by (symmetry; apply Z.leb_le; lia).
+  rewrite Z.max_l by lia. unfold atcp_check. cbn [now check disc tp conn set_now set_timer].
+  destruct (wd_check (p_rt p) (check s) (disc s) w).
+  - rewrite Htp, Hc. destruct s; cbn in *; subst; repeat split.
+  - unfold send. cbn [tp conn set_check set_now set_timer]. rewrite Htp, Hc.
+    destruct s; cbn in *; subst; repeat split.
+  - destruct s; cbn in *; subst; repeat split.
 Qed.
